@@ -741,6 +741,16 @@ func (x *Exec) oblige(kind, label string, goal Term, pos token.Pos, text string)
 		// still record trivially discharged obligations? keep the count honest: skip.
 		return nil
 	}
+	// large conjunctive goals are split into one obligation per conjunct (assert-then-assume in order)
+	if len(goal) > 3000 && kind != "cover" {
+		if parts := splitGoal(goal); len(parts) > 1 {
+			var last *Obligation
+			for i, p := range parts {
+				last = x.oblige(kind, fmt.Sprintf("%s/%d", label, i+1), p, pos, text)
+			}
+			return last
+		}
+	}
 	name := x.fnKey + "/" + kind
 	if label != "" {
 		name += ":" + label
@@ -851,4 +861,71 @@ func (x *Exec) postsAtReturn(fr *Frame, r *ssa.Return, rets []Val, st *State, re
 		t := x.trBool(en.Expr, penv)
 		x.oblige("post", labelOr(en.Label, i), implies(reach, t), pos, en.Text)
 	}
+}
+
+// sexprChildren splits "(op a b c)" into op and its argument terms.
+func sexprChildren(t Term) (string, []Term) {
+	if len(t) < 2 || t[0] != '(' || t[len(t)-1] != ')' {
+		return "", nil
+	}
+	body := t[1 : len(t)-1]
+	var parts []string
+	depth := 0
+	start := -1
+	for i := 0; i < len(body); i++ {
+		c := body[i]
+		switch {
+		case c == '(':
+			if depth == 0 && start < 0 {
+				start = i
+			}
+			depth++
+		case c == ')':
+			depth--
+			if depth == 0 {
+				parts = append(parts, body[start:i+1])
+				start = -1
+			}
+		case c == ' ' || c == '\n' || c == '\t':
+			if depth == 0 && start >= 0 {
+				parts = append(parts, body[start:i])
+				start = -1
+			}
+		default:
+			if depth == 0 && start < 0 {
+				start = i
+			}
+		}
+	}
+	if start >= 0 {
+		parts = append(parts, body[start:])
+	}
+	if len(parts) == 0 {
+		return "", nil
+	}
+	return parts[0], parts[1:]
+}
+
+// splitGoal turns (=> G1 (=> G2 (and A B ...))) into [(=> G1 (=> G2 A)), ...].
+func splitGoal(goal Term) []Term {
+	op, args := sexprChildren(goal)
+	switch {
+	case op == "=>" && len(args) == 2:
+		sub := splitGoal(args[1])
+		if len(sub) <= 1 {
+			return []Term{goal}
+		}
+		var out []Term
+		for _, s := range sub {
+			out = append(out, "(=> "+args[0]+" "+s+")")
+		}
+		return out
+	case op == "and" && len(args) >= 2:
+		var out []Term
+		for _, a := range args {
+			out = append(out, splitGoal(a)...)
+		}
+		return out
+	}
+	return []Term{goal}
 }
